@@ -22,7 +22,7 @@ from typing import List, Set, Tuple
 
 from .report import Ctx
 from .srcmodel import call_leaf, call_name, calls_in, const_str, contains, dotted, get_kwarg, qualname, src, walk_local
-from .util import guard_chain, nested_defs, root_name, strip_not
+from .util import enclosing_trys, guard_chain, nested_defs, root_name, strip_not
 
 NX = {"e"}
 
@@ -89,6 +89,52 @@ def run(ctx: Ctx) -> int:
         details={"path": g.describe_path(path)},
     )
     ctx.oblige("C06.a", len(ok_conts) == 2, lp, "exactly the two documented skip conditions exist for unknown keys" if len(ok_conts) == 2 else f"{len(ok_conts)} skip conditions for unknown keys (expected the branch-key and whole-parent tests)", fn=cv, construct="skip conditions")
+    # known-key side: the value check is skipped / its failure swallowed only under the documented conditions
+    cvk = [c for c in calls_in(lp) if call_leaf(c) == "_check_value_key"]
+    ctx.need(len(cvk) == 1 and len(cvk[0].args) >= 2 and isinstance(cvk[0].args[1], ast.Name), "check_values: one _check_value_key(action, <value>, ...) call")
+    vname = cvk[0].args[1].id
+    for c in conts:
+        gch = guard_chain(c, stop=lp)
+        if any(t is none_t[0].test and pol for t, pol in gch):
+            continue  # unknown-key side, handled above
+        t0 = gch[0][0] if gch else None
+        atoms = []
+        bad_atoms = []
+        for part in ast.walk(t0) if t0 is not None else []:
+            if isinstance(part, ast.Compare) and any(isinstance(x, ast.Name) and x.id == vname for x in ast.walk(part)):
+                is_none = len(part.ops) == 1 and isinstance(part.ops[0], ast.Is) and isinstance(part.left, ast.Name) and part.left.id == vname and isinstance(part.comparators[0], ast.Constant) and part.comparators[0].value is None
+                (atoms if is_none else bad_atoms).append(ast.unparse(part))
+        used = {x.id for x in ast.walk(t0) if isinstance(x, ast.Name)} if t0 is not None else set()
+        truthy = t0 is not None and any(isinstance(x, ast.Name) and x.id == vname and not isinstance(getattr(x, "_jv_parent", None), ast.Compare) for x in ast.walk(t0))
+        ok = t0 is not None and not bad_atoms and not truthy and used <= {vname, "skip_none", "lenient_check"}
+        ctx.oblige("C06.a", ok, c, "a known key's value check is skipped only for None (skip_none) or in lenient mode" if ok else f"a known key's value check is skipped under `{ast.unparse(t0) if t0 is not None else 'no condition'}`: values other than None bypass validation", fn=cv)
+    trys = [t for t, part in enclosing_trys(cvk[0]) if part == "body"]
+    ctx.need(trys, "check_values: _check_value_key inside try")
+    for h in trys[0].handlers:
+        rz = [r for r in ast.walk(h) if isinstance(r, ast.Raise)]
+        if not rz:
+            ctx.oblige("C06.a", False, h, "a failed value check is swallowed unconditionally in validate", fn=cv)
+            continue
+        gch = [(t, pol) for t, pol in guard_chain(rz[0], stop=h)]
+        ok = len(gch) == 1
+        parts: list = []
+        if ok:
+            inner, pos = strip_not(gch[0][0])
+            ok = (gch[0][1] == pos) is False and isinstance(inner, ast.BoolOp) and isinstance(inner.op, ast.And)
+            parts = inner.values if ok else []
+        v_parts = [p for p in parts if any(isinstance(x, ast.Name) and x.id == vname for x in ast.walk(p))]
+        ok_v = len(v_parts) == 1 and isinstance(v_parts[0], ast.Compare) and len(v_parts[0].ops) == 1 and isinstance(v_parts[0].ops[0], ast.Eq) and isinstance(v_parts[0].comparators[0], ast.Dict) and not v_parts[0].comparators[0].keys
+        ok_t = any(isinstance(p, ast.Call) and call_leaf(p) == "is_subclass_typehint" for p in parts)
+        ok_r = any(isinstance(p, ast.Compare) and isinstance(p.ops[0], ast.NotIn) and "required_args" in ast.unparse(p.comparators[0]) for p in parts)
+        ok = ok and ok_v and ok_t and ok_r
+        ctx.oblige(
+            "C06.a",
+            ok,
+            rz[0],
+            "a failed value check is re-raised unless the value is exactly {} for a non-required subclass-typed key" if ok else f"the exemption under which validate swallows a failed value check changed (`{ast.unparse(gch[0][0]) if gch else '?'}`): values other than an empty {{}} for an optional subclass key pass validation although their type check failed",
+            fn=cv,
+        )
+
     # check_values is actually called on the configuration
     cvc = [c for c in calls_in(validate) if isinstance(c.func, ast.Name) and c.func.id == "check_values"]
     gv = ctx.cfg(validate)
@@ -175,6 +221,29 @@ def run(ctx: Ctx) -> int:
                     good = True
                 ctx.oblige("C06.d", good, s, "argparse's own `required` is cleared only after the key was recorded in required_args under the same condition" if good else "`required` is cleared without moving the key to required_args: the argument silently stops being required", fn=fn)
     ctx.floor("C06.d-clear-sites", n_clear, 2)
+
+    # every registration of a required key depends on the `required` flag alone
+    n_add = 0
+    for fq, fn in ctx.repo.all_funcs():
+        for a in calls_in(fn):
+            if not (call_leaf(a) == "add" and isinstance(a.func, ast.Attribute) and dotted(a.func.value) and dotted(a.func.value).endswith(".required_args")):
+                continue
+            n_add += 1
+            gch = guard_chain(a, stop=fn)
+
+            def _is_req(t):
+                return (isinstance(t, ast.Name) and "required" in t.id) or (isinstance(t, ast.Attribute) and "required" in t.attr)
+
+            extra_g = [ast.unparse(t) for t, pol in gch if not (_is_req(t) and pol)]
+            ok = bool(gch) and not extra_g
+            ctx.oblige(
+                "C06.d",
+                ok,
+                a,
+                "the key is recorded in required_args whenever it was declared required (no other condition)" if ok else f"recording the key in required_args additionally depends on {extra_g or 'nothing at all'}: an argument declared required is silently optional when that condition is false",
+                fn=fn,
+            )
+    ctx.floor("C06.d-required-adds", n_add, 3)
 
     mv = ctx.func("_actions:ActionParser._move_parser_actions")
     sc = [s for s in walk_local(mv) if isinstance(s, ast.Assign) and root_name(s.targets[0]) == "required_args" and isinstance(s.value, ast.SetComp)]
